@@ -18,8 +18,8 @@ EXTENDS Domain, SequencesExt
 \* ------------------------------------------------------------------------
 OptTyp(t)  == t \in {"OptStr", "OptInt", "OptBool", KwTyp}
 \* C04: "restricted to types argparse can express (scalars, Optional/List/Literal of scalars, kwargs-named dict)"
-ArgExpr(t) == t \in {"none", "str", "int", "float", "bool", "OptStr", "OptInt", "OptBool", "ListStr", "LitStr", KwTyp,
-                      "Opt:float", "Opt:ListStr", "Opt:LitStr"}
+ArgExpr(t) == t \in {"none", "str", "int", "float", "bool", "OptStr", "OptInt", "OptBool", "ListStr", "LitStr", "LitInt", KwTyp,
+                      "Opt:float", "Opt:ListStr", "Opt:LitStr", "Opt:LitInt"}
 \* C01: without default text, defaults are by construction not in a docstring
 DefExpr(k, dd) == k \notin DocKind \/ dd
 
@@ -36,7 +36,7 @@ FillTyp(k, b) ==
 
 \* N8: argparse: not required <=> Optional[..]; a parameter whose default is None is not required, so its type may come
 \*     back wrapped in Optional[..]
-OptBase == {"float", "ListStr", "LitStr", "UnionIntStr", "TupleIntStr", "Dotted", "object", "Any", "dict", "NoneType", "other", "none"}
+OptBase == {"float", "ListStr", "LitStr", "LitInt", "UnionIntStr", "TupleIntStr", "Dotted", "object", "Any", "dict", "NoneType", "other", "none"}
 OptOf(t) == CASE t = "int" -> "OptInt" [] t = "str" -> "OptStr" [] t = "bool" -> "OptBool"
               [] t \in {"OptInt", "OptStr", "OptBool", KwTyp} -> t
               [] t \in {"Opt:" \o x : x \in OptBase} -> t           \* already wrapped
@@ -202,12 +202,12 @@ F_First(ftype)    == IF ftype = "static" THEN "none" ELSE ftype
 \* argparse option table
 O_Type(s) ==
   CASE IsKw(s)                                          -> {"loads"}
-    [] s.typ \in {"int", "OptInt"}                      -> {"int"}
+    [] s.typ \in {"int", "OptInt", "LitInt"}            -> {"int"}
     [] s.typ = "float"                                  -> {"float"}
     [] s.typ \in {"bool", "OptBool"}                    -> {"bool"}
     [] s.typ = "none" /\ TypeOfDef(s.def) # "none"      -> {"none", "str", TypeOfDef(s.def)}
     [] OTHER                                            -> {"none", "str"}     \* str is argparse's default type
-O_Choices(s)  == s.typ = "LitStr"
+O_Choices(s)  == s.typ \in {"LitStr", "LitInt"}
 O_Append(s)   == s.typ = "ListStr"
 O_Required(s) == IF OptTyp(s.typ) \/ IsKw(s) \/ s.def = "none" THEN {FALSE}
                  ELSE IF s.def # "absent" \/ s.typ = "none" \/ ~ArgExpr(s.typ) THEN BOOLEAN ELSE {TRUE}
